@@ -52,3 +52,15 @@ package runner
 //@   loop 1   invariant [cfg]    hashCfg.Checks == nil && hashCfg.Initialisms == a.Package.Config.Merge(r.cfg).Initialisms && hashCfg.DotImportWhitelist == a.Package.Config.Merge(r.cfg).DotImportWhitelist && hashCfg.HTTPStatusCodeWhitelist == a.Package.Config.Merge(r.cfg).HTTPStatusCodeWhitelist
 //@   loop 1   invariant [deps]   forall j int :: {a.deps[j]} 0 <= j && j < nd ==> istype(a.deps[j], *packageAction) && h.input[6 + j] == frec("vetout %q %x\n", args(astype(a.deps[j], *packageAction).Package.PkgPath, cache.contentHash(astype(a.deps[j], *packageAction).vetx)))
 //@   at call cache.(*Hash).Sum#1 assert [key] len(h.input) == 6 + len(a.deps) && hashCfg.Checks == nil
+
+//@ prop C05
+// getCachedFiles reports success only if every id was found: each output then names a file that
+// exists in the cache directory (GetFile's contract); a miss of any id is an error, so that the
+// caller never treats a partially cached package as cached.
+//@ func getCachedFiles
+//@   requires len(out) >= len(ids) && (forall a int :: {out[a]} 0 <= a && a < len(ids) ==> out[a] != nil)
+//@   requires forall a int, b int :: {out[a], out[b]} 0 <= a && a < b && b < len(ids) ==> out[a] != out[b]
+//@   modifies heap
+//@   ensures  [allfound] result == nil ==> (forall a int :: {out[a]} 0 <= a && a < len(ids) ==> (*out[a] in cache.disk))
+//@   loop 1   index k
+//@   loop 1   invariant [found] forall a int :: {out[a]} 0 <= a && a < k ==> (*out[a] in cache.disk)
